@@ -547,6 +547,8 @@ def _single_exit(body: list[ast.stmt], ret: str) -> list[ast.stmt] | None:
                     close(stmts[-1].orelse)
                 else:
                     stmts[-1].orelse = [ast.Assign(targets=[ast.Name(id=ret, ctx=ast.Store())], value=ast.Constant(value=None))]
+            elif stmts and isinstance(stmts[-1], (ast.Raise, ast.Continue, ast.Break)):
+                return
             elif not (stmts and isinstance(stmts[-1], ast.Assign) and isinstance(stmts[-1].targets[0], ast.Name) and stmts[-1].targets[0].id == ret):
                 stmts.append(ast.Assign(targets=[ast.Name(id=ret, ctx=ast.Store())], value=ast.Constant(value=None)))
         close(res)
@@ -776,7 +778,8 @@ class HelperInliner:
                         (not done and isinstance(st, (ast.Return, ast.Expr, ast.Assign)) and st.value is not None and call is not None
                          and self.resolve(call, fn, cls, qual) is None):
                     # a helper call on the evaluated-first spine of the statement (e.g. `return helper(x)(self)`): into a temporary first
-                    for lc0 in _leading_calls(st.value):
+                    head0 = st.value.value if isinstance(st.value, (ast.YieldFrom, ast.Yield, ast.Await)) and st.value.value is not None else st.value
+                    for lc0 in _leading_calls(head0):
                         if lc0 is st.value:
                             continue
                         r1 = self.resolve(lc0, fn, cls, qual)
